@@ -20,7 +20,7 @@ def build_shim(snap_or_dir):
 
 class Array:
     def __init__(self, binary, nd=2, np_=1, blocksize_kib=1, hashsize=None, ncontent=1, zmode=False, splits=1,
-                 root=None, extra_conf=(), shim=None, pool=False):
+                 root=None, extra_conf=(), shim=None, pool=False, parity_order=None):
         self.bin = binary
         self.root = root or mkscratch('arr.')
         self.nd, self.np, self.bs = nd, np_, blocksize_kib * 1024
@@ -32,11 +32,18 @@ class Array:
         if hashsize:
             lines.append('hashsize %d' % hashsize)
         self.parity_files = []
+        plines = []
         for l in range(np_):
             fs = [os.path.join(self.root, 'par%d_%d.parity' % (l, s)) for s in range(splits)]
             self.parity_files.append(fs)
             name = 'z-parity' if (zmode and l == 2) else LEVNAME[l]
-            lines.append('%s %s' % (name, ','.join(fs)))
+            plines.append('%s %s' % (name, ','.join(fs)))
+        # the order of the parity lines in the configuration must not matter (parity_order: None / 'reversed' / 'rotated')
+        if parity_order == 'reversed':
+            plines.reverse()
+        elif parity_order == 'rotated' and plines:
+            plines = plines[-1:] + plines[:-1]
+        lines += plines
         self.content_files = [os.path.join(self.root, 'content%d' % i, 'snapraid.content') for i in range(ncontent)]
         for c in self.content_files:
             os.makedirs(os.path.dirname(c), exist_ok=True)
